@@ -138,6 +138,196 @@ theorem stored_lifetime (evs : List Event) (o : Obs) (ho : o ∈ (exec ocspFacts
   obtain ⟨p, h1, h2, h3, h4, _⟩ := (run_ok V k evs o ho).2.1 L hs
   exact ⟨p, h1, h2, h3, h4⟩
 
+/-! ### The cache table is a finite map (cache2go keeps its items in a Go map)
+
+The model keeps `CacheTable.items` as an association list. These theorems say that, through `find?`, every operation the
+checker uses acts on it exactly as the corresponding operation acts on a map with one item per key: the list
+representation adds no behaviour (no shadowed duplicates, no resurrection of a replaced item by a later sweep). -/
+section TableIsMap
+open Crv.Cache
+variable {κ α : Type} [DecidableEq κ]
+
+/-- One item per key (a Go map). -/
+def Uniq (T : Cache.Table κ α) : Prop := (T.map Prod.fst).Nodup
+
+theorem find_delete (T : Cache.Table κ α) (k k' : κ) :
+    find? (delete T k) k' = if k' = k then none else find? T k' := by
+  induction T with
+  | nil => simp [delete, find?]
+  | cons p T ih =>
+    obtain ⟨a, it⟩ := p
+    simp only [delete] at ih ⊢
+    by_cases hak : a = k
+    · subst hak
+      by_cases hk : k' = a
+      · subst hk; simp [List.filter, ih]
+      · have : ¬ a = k' := fun h => hk h.symm
+        simp [List.filter, find?, ih, hk, this]
+    · by_cases hk : k' = k
+      · subst hk; simp [List.filter, find?, ih, hak]
+      · by_cases hak' : a = k'
+        · subst hak'; simp [List.filter, find?, hak]
+        · simp [List.filter, find?, ih, hak, hk, hak']
+
+/-- `Add` then `Value` of the same key: the new item, created and accessed now. -/
+theorem find_add_same (T : Cache.Table κ α) (k : κ) (life now : Nat) (d : α) :
+    find? (add T k life d now) k = some { data := d, lifeSpan := life, createdOn := now, accessedOn := now } := by
+  simp [add, find?]
+
+/-- `Add` leaves every other key alone. -/
+theorem find_add_other (T : Cache.Table κ α) (k k' : κ) (life now : Nat) (d : α) (h : k' ≠ k) :
+    find? (add T k life d now) k' = find? T k' := by
+  have : ¬ k = k' := fun e => h e.symm
+  simp [add, find?, this, find_delete, h]
+
+/-- `KeepAlive` changes the access time of that key's item and nothing else. -/
+theorem find_touch (T : Cache.Table κ α) (k k' : κ) (now : Nat) :
+    find? (touch T k now) k' =
+      (find? T k').map (fun it => if k' = k then { it with accessedOn := now } else it) := by
+  induction T with
+  | nil => simp [touch, find?]
+  | cons p T ih =>
+    obtain ⟨a, it⟩ := p
+    simp only [touch] at ih ⊢
+    by_cases hak : a = k
+    · subst hak
+      by_cases hk : a = k'
+      · subst hk; simp [find?]
+      · simp [find?, hk, ih]
+    · by_cases hk : a = k'
+      · subst hk; simp [find?, hak]
+      · simp [find?, hak, hk, ih]
+
+theorem uniq_delete (T : Cache.Table κ α) (k : κ) (h : Uniq T) : Uniq (delete T k) := by
+  unfold Uniq delete at *
+  exact (List.filter_sublist.map Prod.fst).nodup h
+
+omit [DecidableEq κ] in
+theorem uniq_sweep (T : Cache.Table κ α) (now : Nat) (h : Uniq T) : Uniq (sweep T now) := by
+  unfold Uniq sweep at *
+  exact (List.filter_sublist.map Prod.fst).nodup h
+
+theorem uniq_add (T : Cache.Table κ α) (k : κ) (life now : Nat) (d : α) (h : Uniq T) : Uniq (add T k life d now) := by
+  unfold Uniq add
+  simp only [List.map_cons, List.nodup_cons]
+  refine ⟨?_, uniq_delete T k h⟩
+  intro hm
+  obtain ⟨p, hp, hpk⟩ := List.mem_map.mp hm
+  simp [delete] at hp
+  exact hp.2 hpk
+
+theorem uniq_touch (T : Cache.Table κ α) (k : κ) (now : Nat) (h : Uniq T) : Uniq (touch T k now) := by
+  unfold Uniq touch at *
+  have : (T.map (fun p => if p.1 = k then (p.1, { p.2 with accessedOn := now }) else p)).map Prod.fst = T.map Prod.fst := by
+    rw [List.map_map]
+    apply List.map_congr_left
+    intro p _
+    by_cases hp : p.1 = k <;> simp [hp]
+  rw [this]; exact h
+
+/-- An expiration check removes exactly the expired items: with one item per key, no other item of the key can surface. -/
+theorem find_sweep (T : Cache.Table κ α) (k : κ) (now : Nat) (h : Uniq T) :
+    find? (sweep T now) k = (find? T k).bind (fun it => if expired it now then none else some it) := by
+  induction T with
+  | nil => simp [sweep, find?]
+  | cons p T ih =>
+    obtain ⟨a, it⟩ := p
+    have hT : Uniq T := by
+      unfold Uniq at h ⊢
+      simp only [List.map_cons, List.nodup_cons] at h
+      exact h.2
+    have ha : a ∉ T.map Prod.fst := by
+      unfold Uniq at h
+      simp only [List.map_cons, List.nodup_cons] at h
+      exact h.1
+    have ih := ih hT
+    simp only [sweep] at ih ⊢
+    by_cases hak : a = k
+    · subst hak
+      by_cases he : expired it now = true
+      · have hnone : find? (T.filter (fun p => !expired p.2 now)) a = none := by
+          cases hf : find? (T.filter (fun p => !expired p.2 now)) a with
+          | none => rfl
+          | some x =>
+            have := List.mem_filter.mp (Crv.Cache.find?_mem hf)
+            exact absurd (List.mem_map.mpr ⟨(a, x), this.1, rfl⟩) ha
+        simp [List.filter, find?, he, hnone]
+      · simp [List.filter, find?, he]
+    · by_cases he : expired it now = true
+      · simp [List.filter, find?, he, hak, ih]
+      · simp [List.filter, find?, he, hak, ih]
+
+omit [DecidableEq κ] in
+/-- The empty table (and `Flush`) has one item per key; with `uniq_add`, `uniq_touch`, `uniq_delete`, `uniq_sweep` every table
+reachable by `Add`, `Value`/`KeepAlive`, `Delete`, expiration checks and `Flush` has. -/
+theorem uniq_empty : Uniq ([] : Cache.Table κ α) := by simp [Uniq]
+
+/-- Sliding expiry, as cache2go has it: an item that was read at `t` survives every expiration check before
+`t + lifeSpan` (so the checker's own absolute `validUntil` test is what bounds a cached answer's life, C14). -/
+theorem touched_survives (T : Cache.Table κ α) (k : κ) (it : Item α) (t now : Nat) (h : Uniq T)
+    (hf : find? T k = some it) (hnow : now < t + it.lifeSpan) (ht : t ≤ now) :
+    find? (sweep (touch T k t) now) k = some { it with accessedOn := t } := by
+  rw [find_sweep _ _ _ (uniq_touch T k t h), find_touch, hf]
+  simp only [Option.map_some, ↓reduceIte, Option.bind_some]
+  have : expired ({ it with accessedOn := t } : Item α) now = false := by
+    simp only [expired, Bool.and_eq_false_imp, bne_iff_ne, ne_eq, decide_eq_false_iff_not, Nat.not_le]
+    intro _; omega
+  simp [this]
+
+/-- `tryGetResponseFromCache` keeps one item per key (whatever the regenerated facts are). -/
+theorem tryGet_uniq (F : Facts) (T : Ocsp.Table) (k : Str) (now : Nat) (h : Uniq T) : Uniq (tryGet F T k now).2 := by
+  unfold tryGet Cache.value
+  cases hf : Cache.find? T k with
+  | none => simpa using h
+  | some it =>
+    simp only
+    split
+    · exact uniq_delete _ _ (uniq_touch T k now h)
+    · exact uniq_touch T k now h
+
+/-- `OCSPRevocationChecker.IsRevoked` keeps one item per key. -/
+theorem lookup_uniq (F : Facts) (V : Key → Signed → Bool) (inst : Inst) (cert : Cert) (cands : List Cand)
+    (answer : Str → Cand → Fetch) (now : Nat) (T : Ocsp.Table) (h : Uniq T) :
+    Uniq (lookup F V inst cert cands answer now T).table := by
+  have hcg : Uniq (if F.cacheFirst then tryGet F T (mkKey F cert) now else (none, T)).2 := by
+    split
+    · exact tryGet_uniq F T _ now h
+    · exact h
+  unfold lookup
+  simp only
+  split
+  · exact hcg
+  · split
+    · simp only
+      split
+      · split
+        · exact uniq_add _ _ _ _ _ hcg
+        · exact hcg
+      · simp only [↓reduceIte]
+        exact uniq_add _ _ _ _ _ hcg
+    · exact hcg
+    · exact hcg
+
+/-- **The process-global OCSP table is a map in every reachable state**: after any history of lookups by any instances, time
+steps, expiration checks and flushes, the table holds at most one item per key — so `find?` (cache2go's map access) and the
+`find_*` laws above describe it completely. -/
+theorem exec_table_uniq (F : Facts) (V : Key → Signed → Bool) (evs : List Event) (w : World) (h : Uniq w.table) :
+    Uniq (exec F V w evs).1.table := by
+  induction evs generalizing w with
+  | nil => exact h
+  | cons e es ih =>
+    simp only [exec]
+    apply ih
+    cases e with
+    | advance dt => exact h
+    | sweep => exact uniq_sweep _ _ h
+    | flush => exact uniq_empty
+    | look inst cert cands answer => exact lookup_uniq F V inst cert cands answer w.now w.table h
+
+theorem reachable_table_uniq (evs : List Event) : Uniq (exec ocspFacts V {} evs).1.table :=
+  exec_table_uniq ocspFacts V evs {} uniq_empty
+end TableIsMap
+
 /-! Non-vacuity: default 100 ms; responder says good, then flips to revoked; the certificate is read every 40–50 ms.
 Reads at 50 and 90 are hits; the read at 110 — only 20 ms after the previous one, so cache2go still holds the item —
 is a miss because the absolute expiry passed, and sees `revoked`. A second certificate of another issuer with the same
@@ -163,6 +353,11 @@ def hist : List Event :=
 example : (exec ocspFacts Vx {} hist).2.map (fun o => (o.t, o.hit, o.result, o.stored)) =
     [(0, false, .good, some 100), (50, true, .good, none), (50, false, .error, none), (90, true, .good, none),
      (110, false, .revoked, some 100)] := by decide
+-- the table laws on the example: one item per key at the end; a touched item survives the check it would otherwise not
+example : ((exec ocspFacts Vx {} hist).1.table.map Prod.fst).length = 1 := by decide
+example : Cache.find? (Cache.sweep (Cache.add ([] : Cache.Table Nat Nat) 7 100 1 0) 100) 7 = none := by decide
+example : (Cache.find? (Cache.sweep (Cache.touch (Cache.add ([] : Cache.Table Nat Nat) 7 100 1 0) 7 60) 100) 7).isSome = true := by
+  decide
 end Example
 
 /-- The hand-written `Ocsp` model this property rests on was transcribed from exactly these sources: the fingerprints are
